@@ -522,6 +522,8 @@ namespace cgi {
 
 		bool parse_pairs()
 		{
+			if(body_.empty())
+				return true;
 			unsigned char const *p=reinterpret_cast<unsigned char const *>(&body_.front());
 			unsigned char const *e=p + body_.size();
 			while(p<e) {
@@ -552,6 +554,8 @@ namespace cgi {
 
 		bool parse_pairs(std::vector<std::pair<std::string,std::string> > &container)
 		{
+			if(body_.empty())
+				return true;
 			unsigned char const *p=reinterpret_cast<unsigned char const *>(&body_.front());
 			unsigned char const *e=p + body_.size();
 			while(p<e) {
